@@ -225,14 +225,21 @@ macro_rules! purge_method_for_document_type {
       K: JwkStorage,
       I: KeyIdStorage,
     {
-      let (method, scope) = document.remove_method_and_scope(id).ok_or(Error::MethodNotFound)?;
+      // Removing the method also removes every reference to it, so keep the document as it was in order to be
+      // able to restore it exactly if one of the storage operations below fails.
+      let document_before_removal: $t = document.clone();
+      let Some((method, _scope)) = document.remove_method_and_scope(id) else {
+        // No such method, but references to the identifier may have been removed all the same.
+        *document = document_before_removal;
+        return Err(Error::MethodNotFound);
+      };
 
       // Obtain method digest and handle error if this operation fails.
       let method_digest: MethodDigest = match MethodDigest::new(&method).map_err(Error::MethodDigestConstructionError) {
         Ok(digest) => digest,
         Err(error) => {
-          // Revert state by reinserting the method before returning the error.
-          let _ = document.insert_method(method, scope);
+          // Revert state by restoring the document before returning the error.
+          *document = document_before_removal;
           return Err(error);
         }
       };
@@ -244,8 +251,8 @@ macro_rules! purge_method_for_document_type {
       {
         Ok(key_id) => key_id,
         Err(error) => {
-          // Reinsert method before returning.
-          let _ = document.insert_method(method, scope);
+          // Restore the document before returning.
+          *document = document_before_removal;
           return Err(error);
         }
       };
@@ -284,15 +291,15 @@ macro_rules! purge_method_for_document_type {
               undo_error: Some(Box::new(key_id_insertion_error)),
             })
           } else {
-            // KeyId reinsertion succeeded. Now reinsert method.
-            let _ = document.insert_method(method, scope);
+            // KeyId reinsertion succeeded. Now restore the method together with the references to it.
+            *document = document_before_removal;
             Err(Error::KeyStorageError(key_deletion_error))
           }
         }
         (Err(_key_deletion_error), Err(key_id_deletion_error)) => {
-          // We assume this means nothing got deleted. Reinsert the method and return one of the errors (perhaps
+          // We assume this means nothing got deleted. Restore the document and return one of the errors (perhaps
           // key_id_deletion_error as we really expect the key id storage to work as expected at this point).
-          let _ = document.insert_method(method, scope);
+          *document = document_before_removal;
           Err(Error::KeyIdStorageError(key_id_deletion_error))
         }
       }
